@@ -2,4 +2,4 @@
 in lock-step with M1, judged by the oracles of harness/simengine/monitors.py)."""
 from ..e1 import E1Part
 
-PROP = E1Part("C08", [("mixed",2),("timeouts",1),("saturate",2),("notimeout",1),("saturateleak",1),("satreuse",1),("concurrent",1)], ["C08"], ["LokyModel.Props.C08", "LokyModel.Props.C08Live"], quick=1400, thorough=40000, starve=1)
+PROP = E1Part("C08", [("mixed",2),("timeouts",1),("saturate",2),("notimeout",1),("saturateleak",1),("satreuse",1),("concurrent",1),("saturatetmo",1)], ["C08"], ["LokyModel.Props.C08", "LokyModel.Props.C08Live"], quick=1400, thorough=40000, starve=1)
